@@ -105,6 +105,14 @@ def run_check(prop, tier, replay=None):
 
     # report at most a handful of distinct violations, smallest inputs first
     unknown.sort(key=lambda t: mod.case_size(t[0]))
+    if os.environ.get("VERIF_DEBUG"):
+        agg = {}
+        for case, g, e, m in unknown:
+            agg.setdefault((case.get("site"), m.get("kind")), []).append((case, g, e, m))
+        for k, v in sorted(agg.items(), key=lambda kv: -len(kv[1])):
+            print("DEBUG", k, len(v))
+            for case, g, e, m in v[:int(os.environ.get("VERIF_DEBUG"))]:
+                print("     ", json.dumps({kk: vv for kk, vv in case.items()}), "\n        ->", m)
     seen_sites = {}
     for case, g, e, m in unknown:
         key = (case.get("site"), m.get("kind"))
